@@ -248,6 +248,38 @@ type c20Fault struct {
 	Pos     int    // operation index / byte offset / file or field position
 	Field   string
 	ExpFail bool
+	Commit  int // 0: no commit field (except the fault-free upload, which ends with one); k>0: a "commit" field before file part k-1 (k = Files+1: after the last file)
+}
+
+// c20Parts builds the multipart parts of the upload under test.
+func c20Parts(fc c20Fault) []upPart {
+	var parts []upPart
+	for i := 0; i < fc.Files; i++ {
+		content := goodFiles[i%len(goodFiles)]
+		if fc.Kind == "nobench" && i == fc.Pos {
+			content = "k: v\nnot a benchmark line\n"
+		}
+		if fc.Kind == "collide" && i == fc.Pos {
+			content = "name: x\n" + content
+		}
+		if fc.Commit == i+1 {
+			parts = append(parts, upPart{"commit", "", "1"})
+		}
+		if fc.Kind == "field" && i == fc.Pos {
+			parts = append(parts, upPart{fc.Field, "", "1"})
+		}
+		parts = append(parts, upPart{"file", fmt.Sprintf("t%d.txt", i), content})
+	}
+	if fc.Commit == fc.Files+1 {
+		parts = append(parts, upPart{"commit", "", "1"})
+	}
+	if fc.Kind == "field" && fc.Pos >= fc.Files {
+		parts = append(parts, upPart{fc.Field, "", "1"})
+	}
+	if fc.Kind == "none" && fc.Commit == 0 {
+		parts = append(parts, upPart{"commit", "", "1"})
+	}
+	return parts
 }
 
 // c20RunFault runs one fault case and checks the differential oracle.
@@ -266,26 +298,7 @@ func c20RunFault(fc c20Fault) (msg string, nOps int, bodyLen int) {
 	}
 	preQ, preF := e.queryable(), e.files()
 	// the upload under test
-	var parts []upPart
-	for i := 0; i < fc.Files; i++ {
-		content := goodFiles[i%len(goodFiles)]
-		if fc.Kind == "nobench" && i == fc.Pos {
-			content = "k: v\nnot a benchmark line\n"
-		}
-		if fc.Kind == "collide" && i == fc.Pos {
-			content = "name: x\n" + content
-		}
-		if fc.Kind == "field" && i == fc.Pos {
-			parts = append(parts, upPart{fc.Field, "", "1"})
-		}
-		parts = append(parts, upPart{"file", fmt.Sprintf("t%d.txt", i), content})
-	}
-	if fc.Kind == "field" && fc.Pos >= fc.Files {
-		parts = append(parts, upPart{fc.Field, "", "1"})
-	}
-	if fc.Kind == "none" {
-		parts = append(parts, upPart{"commit", "", "1"})
-	}
+	parts := c20Parts(fc)
 	truncate := -1
 	if fc.Kind == "cut" {
 		truncate = fc.Pos
@@ -324,8 +337,17 @@ func c20RunFault(fc c20Fault) (msg string, nOps int, bodyLen int) {
 			}
 		}
 		if fc.Kind == "nobench" {
+			pi, nf := 0, 0
+			for j, p := range parts {
+				if p.Field == "file" {
+					if nf == fc.Pos {
+						pi = j
+					}
+					nf++
+				}
+			}
 			for name := range postF {
-				if _, ok := preF[name]; !ok && strings.HasSuffix(name, fmt.Sprintf("/%d.txt", fc.Pos)) {
+				if _, ok := preF[name]; !ok && strings.HasSuffix(name, fmt.Sprintf("/%d.txt", pi)) {
 					return fmt.Sprintf("the file without benchmark lines (%s) is still in the store", name), nOps, bodyLen
 				}
 			}
@@ -339,7 +361,7 @@ func c20RunFault(fc c20Fault) (msg string, nOps int, bodyLen int) {
 				}
 				idx, _ := strconv.Atoi(strings.TrimSuffix(name[strings.LastIndex(name, "/")+1:], ".txt"))
 				if idx >= k {
-					return fmt.Sprintf("body cut at byte %d (inside part %d): file %q is in the store", fc.Pos, k, name), nOps, bodyLen
+					return fmt.Sprintf("body cut at byte %d (inside part %d; the upload failed with %d %s): file %q is in the store; cut point context: …%q|", fc.Pos, k, code, strings.TrimSpace(body), name, cutContext(parts, fc.Pos)), nOps, bodyLen
 				}
 			}
 		}
@@ -428,17 +450,16 @@ type countWriter int
 
 func (c *countWriter) Write(p []byte) (int, error) { *c += countWriter(len(p)); return len(p), nil }
 
-// cutPart returns the index (among file parts) of the part a cut at byte off
-// falls into: the number of file parts whose content ended before off.
+// cutPart returns the index (among all parts: stored files are numbered by
+// part index) of the part a cut at byte off falls into: the number of parts
+// whose content ended before off.
 func cutPart(parts []upPart, off int) int {
 	k := 0
 	for i := 1; i <= len(parts); i++ {
 		var n countWriter
 		mwPostN(parts, i, &n)
 		if int(n) <= off {
-			if parts[i-1].Field == "file" {
-				k++
-			}
+			k++
 		}
 	}
 	return k
@@ -457,7 +478,7 @@ func c20Replay(raw json.RawMessage) string {
 }
 
 func c20Faults(c *mc.Check) {
-	f := c.Family("single-faults", "the real /upload handler driven in-process, for history prefixes {empty server, one committed upload, committed + failed} × uploads of 1–3 files × file stores {in-memory, local directory}: a single fault at EVERY position — (a) the k-th file-store operation fails, for every k over create / each write / close of each file (close failing before or after the data reached the store); (b) the request body cut at every byte offset (quick tier: every offset from 3 bytes before the end of a part to 3 bytes after the delimiter line that follows it, and every 7th byte); (c) a file without benchmark lines at each position; (d) an unexpected form field (abort, x) at each position; (e) a file whose labels collide with name-derived labels (insertion fails at commit); plus the fault-free upload. Oracle, differential against the state before the upload: on failure queries and listings are byte-identical to before, earlier stored files unchanged, the file being written at the failure is absent from the store; on success every record and file is visible; afterwards a fresh upload succeeds with a never-seen, larger ID, all its records queryable and its file stored once with the metadata header; non-trivial = runs with a fault", c20Replay)
+	f := c.Family("single-faults", "the real /upload handler driven in-process, for history prefixes {empty server, one committed upload, committed + failed} × uploads of 1–3 files × file stores {in-memory, local directory}: a single fault at EVERY position — (a) the k-th file-store operation fails, for every k over create / each write / close of each file (close failing before or after the data reached the store); (b) the request body cut at every byte offset (quick tier: every offset from 3 bytes before the end of a part to 3 bytes after the delimiter line that follows it, and every 7th byte); (c) a file without benchmark lines at each position; (d) an unexpected form field (abort, x) at each position; (e) a file whose labels collide with name-derived labels (insertion fails at commit); plus the fault-free upload; (f) every fault of (a), (c), (d), (e) again in an upload that carries the commit form field before file k or after the last file, for every k, and the cuts of (b) with the field first or before the last file: the field does not end the upload, so a fault after it fails the whole upload. Oracle, differential against the state before the upload: on failure queries and listings are byte-identical to before, earlier stored files unchanged, the file being written at the failure is absent from the store; on success every record and file is visible; afterwards a fresh upload succeeds with a never-seen, larger ID, all its records queryable and its file stored once with the metadata header; non-trivial = runs with a fault", c20Replay)
 	if c.Replaying() {
 		return
 	}
@@ -498,30 +519,66 @@ func c20Faults(c *mc.Check) {
 						cases = append(cases, fc)
 					}
 				}
+				// the same faults in an upload that also carries the "commit" field, at every position:
+				// the field does not end the upload, so a fault after it still fails the whole upload
+				for cm := 1; cm <= files+1; cm++ {
+					cb := base
+					cb.Commit = cm
+					fc := cb
+					fc.Kind = "none"
+					cases = append(cases, fc)
+					for i := 0; i < files; i++ {
+						fc := cb
+						fc.Kind, fc.Pos, fc.ExpFail = "nobench", i, true
+						cases = append(cases, fc)
+						fc.Kind = "collide"
+						cases = append(cases, fc)
+					}
+					for i := 0; i <= files; i++ {
+						for _, field := range []string{"abort", "x"} {
+							fc := cb
+							fc.Kind, fc.Pos, fc.Field, fc.ExpFail = "field", i, field, true
+							cases = append(cases, fc)
+						}
+					}
+					for k := 0; k < nOps; k++ {
+						fc := cb
+						fc.Kind, fc.Pos, fc.ExpFail = "fs", k, true
+						cases = append(cases, fc)
+					}
+				}
 				if prefix == 2 && !c.Thorough() {
 					continue
 				}
-				var parts []upPart
-				for i := 0; i < files; i++ {
-					parts = append(parts, upPart{"file", fmt.Sprintf("t%d.txt", i), goodFiles[i%len(goodFiles)]})
-				}
-				bounds := map[int]bool{}
-				for i := 1; i <= len(parts); i++ {
-					var n countWriter
-					mwPostN(parts, i, &n)
-					// from 3 bytes before the end of the part to 3 bytes after the whole delimiter line that
-					// follows it (CR LF "--" boundary, then CR LF or "--" CR LF): every byte of the line
-					for d := -3; d <= len("\r\n--"+vBoundary+"--\r\n")+3; d++ {
-						bounds[int(n)+d] = true
+				for _, cm := range []int{0, 1, files} {
+					if cm != 0 && (loc || prefix != 0) && !c.Thorough() {
+						continue
 					}
-				}
-				_ = bodyLen
-				total := bodyLength(parts)
-				for off := 0; off < total; off++ {
-					if c.Thorough() || bounds[off] || off%7 == 0 {
-						fc := base
-						fc.Kind, fc.Pos = "cut", off
-						cases = append(cases, fc)
+					if cm == files && files == 1 {
+						continue
+					}
+					cbase := base
+					cbase.Commit = cm
+					cbase.Kind = "cut"
+					parts := c20Parts(cbase)
+					bounds := map[int]bool{}
+					for i := 1; i <= len(parts); i++ {
+						var n countWriter
+						mwPostN(parts, i, &n)
+						// from 3 bytes before the end of the part to 3 bytes after the whole delimiter line that
+						// follows it (CR LF "--" boundary, then CR LF or "--" CR LF): every byte of the line
+						for d := -3; d <= len("\r\n--"+vBoundary+"--\r\n")+3; d++ {
+							bounds[int(n)+d] = true
+						}
+					}
+					_ = bodyLen
+					total := bodyLength(parts)
+					for off := 0; off < total; off++ {
+						if c.Thorough() || bounds[off] || off%7 == 0 {
+							fc := cbase
+							fc.Pos = off
+							cases = append(cases, fc)
+						}
 					}
 				}
 			}
@@ -545,11 +602,7 @@ func c20Faults(c *mc.Check) {
 			if msg != "" {
 				sig := "fault-" + fc.Kind
 				if strings.HasPrefix(msg, "CUT-ACCEPTED") {
-					var parts []upPart
-					for i := 0; i < fc.Files; i++ {
-						parts = append(parts, upPart{"file", fmt.Sprintf("t%d.txt", i), goodFiles[i%len(goodFiles)]})
-					}
-					if inLaterPartHeader(parts, fc.Pos) {
+					if inLaterPartHeader(c20Parts(fc), fc.Pos) {
 						sig = "cut-inside-later-part-header-accepted"
 					}
 				}
